@@ -228,7 +228,7 @@ func (ps *exprParser) sortName() string {
 			if n.val == ")" {
 				depth--
 			}
-			if s != "(" && n.val != ")" {
+			if s != "(" && n.val != ")" && !strings.HasSuffix(s, "(") {
 				s += " "
 			}
 			s += n.val
